@@ -2,7 +2,7 @@
 # usage: tools/seedeval.sh <worktree-or-patched-repo> <property ids...>   -- run quick checks against a scratch tree
 WT=$1; shift
 for pid in "$@"; do
-  out=$(VERIF_REPO=$WT VERIF_RIDEALONG=0 ./vcheck $pid --tier ${TIER:-quick} 2>&1)
+  out=$(VERIF_REPO=$WT VERIF_RIDEALONG=0 VERIF_NO_EVIDENCE=1 ./vcheck $pid --tier ${TIER:-quick} 2>&1)
   code=$?
   echo "[$pid exit=$code] $(echo "$out" | grep -c '^VIOLATION') violation line(s): $(echo "$out" | grep 'key:' | head -3 | tr '\n' ';')"
   echo "$out" | grep "INCONCLUSIVE" | head -2 | cut -c1-300
